@@ -418,6 +418,12 @@ def run(ctx):
     SPELL = {"TAB": ["\t", "    "], "NEWLINE": ["\n", "\r\n", "\r"], "BOOL": ["True", "False"]}
     rich = [("PROGNAME", "NAME", "NEWLINE", "VERSION", "FLOAT", "NEWLINE", "TYPE_FLOAT", "TYPE_ARRAY", "NAME", "ASSIGN", "NEWLINE", "TAB", "FLOAT", "COMMA", "FLOAT", "NEWLINE", "TAB", "FLOAT", "COMMA", "FLOAT", "NEWLINE",
              "FOR", "TYPE_INT", "NAME", "IN", "INT", "COLON", "INT", "NEWLINE", "TAB", "NAME", "APPLY", "INT", "NEWLINE", "TAB", "NAME", "LBRAC", "BOOL", "COMMA", "BOOL", "RBRAC", "APPLY", "NAME", "NEWLINE", "EOF")]
+    # ... and every single-token mutation of two longer sentences in which the starred / plussed parts of the rules are
+    # taken at least twice and each kind of item comes last (array rows at the end of input, a loop body at the end of input)
+    array_last = rich[0][:rich[0].index("FOR")]
+    for base in (array_last, tuple(t for t in rich[0] if t != "EOF")):
+        for mt in mutations(base, mut_alpha):
+            cases.setdefault(sentences.to_text(mt), ("mutation-long", "program"))
     bases_sp = [cx[r][0] + sh[r] + cx[r][1] for r in rules if r in cx] + rich
     nspell = 0
     for base in dict.fromkeys(bases_sp):
